@@ -222,8 +222,28 @@ def decor_shapes():
     return out
 
 
+def help_clash_shapes():
+    """Options whose literal COLLIDES with the built-in help request (`short = "h"`, `long = "help"`): a
+    declared literal is part of the declared grammar, so it must win over help (round trip); the other help
+    literal keeps asking for help.  On a valued, a flag and a repeated option, at struct level and inside a
+    subcommand struct."""
+    return [
+        st("HelpClash1", [opt("host", "required", "str", "String", long="host", short="h"),
+                          opt("verbose", "optional", "bool", "bool", short="v")]),
+        st("HelpClash2", [opt("human", "optional", "bool", "bool", short="h"),
+                          opt("help", "repeated", "int", "i32", long="help")]),
+        st("HelpClash3", [opt("level", "optional", "int", "i32", short="l")],
+           sub("cmd", "HelpClash3Cmd", False, [
+               ("Ping", None),
+               ("Connect", st("HelpClash3Connect", [opt("host", "optional", "unixstr", USTR, long="host", short="h"),
+                                                    opt("help", "optional", "bool", "bool", long="help")]))])),
+        st("HelpClash4", [opt("header", "repeated", "str", STR, long="header", short="h"),
+                          pos("url", "required", "str", "String")]),
+    ]
+
+
 GRID_FROM = len(SHAPES) + 1      # 1-based index of the first grid shape (smaller bounds from here on)
-SHAPES = SHAPES + grid_shapes() + decor_shapes()
+SHAPES = SHAPES + grid_shapes() + decor_shapes() + help_clash_shapes()
 decorate(SHAPES)
 
 # ---------------------------------------------------------------------------------------------
@@ -283,7 +303,11 @@ EXTRA_TOKENS = ["-h", "--help", "--zz"]
 
 
 def alphabet(shape):
-    return all_literals(shape) + EXTRA_TOKENS + VALUE_TOKENS
+    res = []
+    for t in all_literals(shape) + EXTRA_TOKENS + VALUE_TOKENS:
+        if t not in res:          # a shape may declare -h / --help itself
+            res.append(t)
+    return res
 
 
 # ---------------------------------------------------------------------------------------------
